@@ -87,7 +87,44 @@ class PathGates:
         return {"name": self.name, "evidence": ev, "violations": viol}
 
 
+class ReferenceArchives:
+    """whole archives from an independent COPY-coder writer, read by the real code (bounded/archives.py)"""
+
+    WHAT = {
+        "C06": "extractall()/extract(targets)/testzip() return exactly the described members",
+        "C10": "getnames()/list() report the described names, order, sizes, directory flags and stored CRCs",
+        "C04": "one altered byte of a CRC-protected member is never accepted silently",
+    }
+
+    def __init__(self, prop):
+        self.name = "reference-archives-" + {"C06": "extract", "C10": "listing", "C04": "damage"}[prop]
+        self.props = (prop,)
+        self.prop = prop
+
+    def run(self, tier, seed):
+        repo = os.environ.get("VERIF_REPO", "/repo")
+        env = dict(os.environ)
+        if os.path.realpath(repo) != "/repo":
+            env["PYTHONPATH"] = repo
+        n = 400 if tier == "quick" else 8000
+        bound = "%d seeded archives from an independent writer (COPY coder; <= 4 folders of 0..4 members, directories / empty files interleaved, CRCs per substream / per folder / absent, optional records present or absent, gap before the packed streams): %s" % (n, self.WHAT[self.prop])
+        ev = {"name": self.name, "level": "bounded", "bound": bound}
+        try:
+            p = subprocess.run(["/venv/bin/python", os.path.join(HERE, "bounded", "archives.py"), tier, str(seed), self.prop], capture_output=True, text=True, timeout=900 if tier == "quick" else 3600, env=env, cwd=HERE)
+            r = json.loads(p.stdout.strip().split("\n")[-1])
+        except Exception as e:
+            return {"name": self.name, "error": "archive runner failed: %s" % str(e)[:200], "evidence": ev, "violations": []}
+        viol = []
+        for i, f in enumerate(r.get("failures", [])[:3]):
+            viol.append({"name": "bounded/%s/%d" % (self.name, i), "property": self.prop, "obligation": "%s/bounded#%s" % (self.prop, self.name), "status": "confirmed", "concrete_input": f, "real_run": {"interpreter": "/venv/bin/python", "failure": f["failure"]}, "rerun": "/venv/bin/python bounded/archives.py replay <this file>"})
+        ev.update({"runs": r.get("runs"), "seconds": r.get("seconds"), "failures": len(r.get("failures", []))})
+        return {"name": self.name, "evidence": ev, "violations": viol}
+
+
 REGISTRY.scenarios.append(AppendHistories())
+REGISTRY.scenarios.append(ReferenceArchives("C06"))
+REGISTRY.scenarios.append(ReferenceArchives("C10"))
+REGISTRY.scenarios.append(ReferenceArchives("C04"))
 REGISTRY.scenarios.append(PathGates("C03"))
 REGISTRY.scenarios.append(PathGates("C16"))
 REGISTRY.scenarios.append(SectionRoundTrip("C06"))
